@@ -1,5 +1,8 @@
 """C01 — fixed-capacity vectors behave exactly like std::vector within capacity (DESIGN §4 C01).
 
+`<op>_mv x=v` lines call the member as `T t(v); c.<op>(std::move(t));` and append ` arg=<what t shows afterwards>` to the
+result: "try_push_back on a full inplace_vector changes nothing" includes the argument.
+
 Histories: a `new ty=sv|ipv|stk cap=N kind=int|nt` line, then operation lines on up to four live
 objects (`obj=k`, `other=j`).  After every line all four objects are observed through the public API
 (size, empty, full, elements in order, front/back, operator[], data(), reverse and const iteration, storage inside the
@@ -34,7 +37,12 @@ RULE = ("exhaustive one-step box: static_vector of capacity 0..3 (int, a non-tri
         "the values {0,1,2}, every member with every position / count / value / overload, and every member that takes its "
         "argument by reference (push_back, emplace_back, insert(pos,x), emplace(pos,x), insert(pos,n,x), resize(n,x), "
         "push_back(back())) called with every element i of the vector itself at every position / count (these also at capacity 4 "
-        "from every state of length 2); every ordered pair of "
+        "from every state of length 2); every member that takes T&& or forwards an rvalue (push_back, emplace_back, "
+        "insert(pos, T&&), emplace; stack push / emplace; inplace_vector try_push_back, try_emplace_back, unchecked_push_back, "
+        "unchecked_emplace_back) called as f(std::move(t)) with a named object t whose state is printed after the call "
+        "(`_mv` lines, ` arg=`: moved from iff an element was constructed from it; observable for the non-trivial class and "
+        "the handle class), from every content state at every position, the try_ members also on every FULL state and at "
+        "capacity 0; every ordered pair of "
         "content states for copy/move construction and assignment, swap (member, free, self) and the six relational operators, each "
         "copy followed by two rounds of changes of the source and of the copy; a key/payload element kind (kp: operator< on the "
         "key only, operator== on key and payload; the values 0 and 1 are equivalent and not equal, 2 is greater) for "
@@ -45,8 +53,9 @@ RULE = ("exhaustive one-step box: static_vector of capacity 0..3 (int, a non-tri
         "capacity 0 and 4; the size type at both sides of every threshold of the smallest_size_t chain (api_width: 254/255/256, "
         "65534/65535/65536, 2^32-2/2^32-1/2^32, 2^63-1) and the widths of the types it names (api_abi); deterministic walks across "
         "the size-type boundary at capacities 254/255/256 (fill to capacity-1, to capacity, one more try, back, insert/erase at "
-        "both ends, copy, compare, swap, then aliasing inserts / resize / push_back(back()) at capacity-1); plus seeded random histories of up to 40 operations on four live objects at "
-        "capacities {0,1,2,3,4,7} (the aliasing members among the candidates; element kind kp where the harness instantiates it: "
+        "both ends, copy, compare, swap, then aliasing inserts / resize / push_back(back()) at capacity-1, push_back / insert / "
+        "try_push_back / try_emplace_back of a named rvalue on the full and the nearly full vector); plus seeded random histories of up to 40 operations on four live objects at "
+        "capacities {0,1,2,3,4,7} (the aliasing members and the named-rvalue calls among the candidates; element kind kp where the harness instantiates it: "
         "static_vector at capacity <= 4, stack at 1 and 3), random interleaved histories (object 0 := copy of object 1, then 2..16 single-object "
         "operations addressed to the source or the copy at random: the hypothesis shape of copy_independent) at capacities "
         "1..7, and histories of up to 10 operations from a nearly full vector at {254,255,256}.  Beyond capacity 3 "
@@ -106,6 +115,23 @@ THEOREMS = {
     "try_emplace_alias": _STEP + [_P + "ipv_push_alias_eq", _P + "alias_spec", _P + "tryPush_full"],
     "unchecked_push_alias": _STEP + [_P + "ipv_push_alias_eq", _P + "alias_spec"],
     "unchecked_emplace_alias": _STEP + [_P + "ipv_push_alias_eq", _P + "alias_spec"],
+    "push_mv": _STEP + [_P + "rvalue_argument_moved_iff_constructed", _P + "rvalue_members_generalise", _P + "rvalue_members_present"],
+    "emplace_back_mv": _STEP + [_P + "rvalue_argument_moved_iff_constructed", _P + "rvalue_members_generalise",
+                                _P + "rvalue_members_present"],
+    "insert_mv": _STEP + [_P + "rvalue_argument_moved_iff_constructed", _P + "rvalue_members_generalise",
+                          _P + "rvalue_members_present", _P + "rotate_eq"],
+    "emplace_mv": _STEP + [_P + "rvalue_argument_moved_iff_constructed", _P + "rvalue_members_generalise",
+                           _P + "rvalue_members_present", _P + "rotate_eq"],
+    "try_push_mv": _STEP + [_P + "tryPush_full_keeps_argument", _P + "tryPush_room_consumes_argument",
+                            _P + "rvalue_argument_moved_iff_constructed", _P + "rvalue_members_generalise",
+                            _P + "rvalue_members_present", _P + "tryPush_full"],
+    "try_emplace_mv": _STEP + [_P + "tryPush_full_keeps_argument", _P + "tryPush_room_consumes_argument",
+                               _P + "rvalue_argument_moved_iff_constructed", _P + "rvalue_members_generalise",
+                               _P + "rvalue_members_present", _P + "tryPush_full"],
+    "unchecked_push_mv": _STEP + [_P + "rvalue_argument_moved_iff_constructed", _P + "rvalue_members_generalise",
+                                  _P + "rvalue_members_present"],
+    "unchecked_emplace_mv": _STEP + [_P + "rvalue_argument_moved_iff_constructed", _P + "rvalue_members_generalise",
+                                     _P + "rvalue_members_present"],
     "dump": [_P + "observers_refine", _P + "observers_refine_ipv_stk", _P + "observers_zero_capacity"],
     "try_push": _STEP + [_P + "tryPush_full"], "try_push_rv": _STEP + [_P + "tryPush_full"],
     "try_emplace": _STEP + [_P + "tryPush_full"], "unchecked_push": _STEP, "unchecked_push_rv": _STEP,
@@ -159,13 +185,16 @@ ALL_MEMBERS = ["push", "push_rv", "emplace_back", "pop", "insert", "insert_rv", 
                "move_insert", "erase", "erase_range", "resize", "resize_val", "assign_fill", "assign_range", "clear", "ctor_n",
                "ctor_n_val", "ctor_range", "copy_ctor", "move_ctor", "copy_assign", "move_assign", "swap", "swap_free",
                "erase_val", "erase_if", "cmp", "try_push", "try_push_rv", "try_emplace", "unchecked_push",
-               "unchecked_push_rv", "unchecked_emplace", "dump"]
+               "unchecked_push_rv", "unchecked_emplace", "try_push_cref_sig", "try_push_rv_sig", "unchecked_push_cref_sig",
+               "unchecked_push_rv_sig", "dump"]
+# `…_sig`: api_member only - the T const& / T&& overloads of try_push_back / unchecked_push_back exist as functions of their own
+SIG_MEMBERS = {"try_push_cref_sig", "try_push_rv_sig", "unchecked_push_cref_sig", "unchecked_push_rv_sig"}
 # mirror of Tetl.C01.supports .ipv (theorems ipv_present_members / ipv_missing_members)
 IPV_MEMBERS = {"try_push", "try_push_rv", "try_emplace", "unchecked_push", "unchecked_push_rv", "unchecked_emplace", "pop",
-               "clear", "copy_ctor", "move_ctor", "dump"}
+               "clear", "copy_ctor", "move_ctor", "dump"} | SIG_MEMBERS
 # mirror of Tetl.C01.Spec.stateFree: the precondition does not mention the current contents
 STATE_FREE = {"resize", "resize_val", "assign_fill", "assign_range", "clear", "ctor_n", "ctor_n_val", "ctor_range",
-              "erase_val", "erase_if", "try_push", "try_push_rv", "try_emplace", "dump"}
+              "erase_val", "erase_if", "try_push", "try_push_rv", "try_emplace", "try_push_mv", "try_emplace_mv", "dump"}
 BINARY_OPS = {"copy_ctor", "move_ctor", "copy_assign", "move_assign", "swap", "swap_free", "cmp"}
 MEMBER_ARGS = "pos=0 n=0 x=0 xs=[] other=1 f=0 l=0 m=1 r=0"
 
@@ -189,6 +218,10 @@ def unary_ops_exhaustive(ty, cap, d):
                 ops += ["push x=%d" % x, "push_rv x=%d" % x, "emplace_back x=%d" % x]
             for p in range(n + 1):
                 ops += ["insert pos=%d x=5" % p, "insert_rv pos=%d x=6" % p, "emplace pos=%d x=7" % p]
+            # the argument is std::move(t) of an object the caller looks at afterwards (` arg=`)
+            ops += ["push_mv x=1", "emplace_back_mv x=2"]
+            for p in range(n + 1):
+                ops += ["insert_mv pos=%d x=6" % p, "emplace_mv pos=%d x=7" % p]
         if n > 0:
             ops.append("pop")
         for p in range(n + 1):
@@ -218,6 +251,7 @@ def unary_ops_exhaustive(ty, cap, d):
                 ops += ["push x=%d" % x, "push_rv x=%d" % x, "emplace_back x=%d" % x]
             if n > 0:
                 ops += ["push_top", "emplace_top"]
+            ops += ["push_mv x=1", "emplace_back_mv x=2"]
         if n > 0:
             ops.append("pop")
     elif ty == "ipv":
@@ -225,6 +259,11 @@ def unary_ops_exhaustive(ty, cap, d):
             ops += ["try_push x=%d" % x, "try_push_rv x=%d" % x, "try_emplace x=%d" % x]
             if room > 0:
                 ops += ["unchecked_push x=%d" % x, "unchecked_push_rv x=%d" % x, "unchecked_emplace x=%d" % x]
+        # the argument is std::move(t) of an object the caller looks at afterwards: on a full vector (room == 0; always at
+        # capacity 0) try_* must not touch it
+        ops += ["try_push_mv x=1", "try_emplace_mv x=2"]
+        if room > 0:
+            ops += ["unchecked_push_mv x=1", "unchecked_emplace_mv x=2"]
         for i in range(n):
             ops += ["try_push_alias i=%d" % i, "try_emplace_alias i=%d" % i]
             if room > 0:
@@ -260,7 +299,7 @@ def alias_ops_exhaustive(cap, d):
 
 # the key/payload kind differs from int only in operator< / operator== (same storage): its single-object box is the
 # members that compare elements, the aliasing members and a few plain ones
-KP_UNARY = ("erase_val", "push", "insert", "push_alias", "push_top", "insert_alias", "insert_fill_alias", "resize_val_alias")
+KP_UNARY = ("erase_val", "push", "insert", "push_mv", "insert_mv", "push_alias", "push_top", "insert_alias", "insert_fill_alias", "resize_val_alias")
 
 
 def build(ty, d, obj):
@@ -331,10 +370,12 @@ def boundary_histories(add):
                  "resize_val n=%d x=3" % (cap - 2), "erase_if m=2 r=0", "assign_fill n=%d x=1" % cap, "swap obj=0 other=1",
                  "clear obj=1", "insert_range obj=1 pos=0 xs=%s" % fmt_list(xs + [5]), "pop obj=1",
                  "insert_alias obj=1 pos=0 i=%d" % (cap - 2), "pop obj=1", "insert_alias obj=1 pos=3 i=5", "pop obj=1",
-                 "push_top obj=1", "resize_val_alias obj=1 n=%d i=1" % (cap - 3), "insert_fill_alias obj=1 pos=1 n=3 i=2"],
+                 "push_top obj=1", "resize_val_alias obj=1 n=%d i=1" % (cap - 3), "insert_fill_alias obj=1 pos=1 n=3 i=2",
+                 "pop obj=1", "insert_mv obj=1 pos=2 x=9", "pop obj=1", "push_mv obj=1 x=9"],
                 "sv/boundary")
             add([new_line("ipv", cap, kind)] + ["unchecked_push x=%d" % (i % 7) for i in range(cap - 1)]
-                + ["try_push x=9", "try_push x=4", "try_emplace x=4", "try_push_rv x=4", "copy_ctor obj=1 other=0",
+                + ["try_push_mv x=9", "try_push x=4", "try_emplace x=4", "try_push_rv x=4", "try_push_mv x=5", "try_emplace_mv x=6",
+                   "copy_ctor obj=1 other=0",
                    "pop obj=0", "try_push obj=1 x=2", "try_emplace obj=0 x=3", "move_ctor obj=2 other=0", "clear obj=0",
                    "try_push obj=0 x=1", "try_push obj=2 x=1", "try_push_alias obj=1 i=3", "pop obj=1",
                    "unchecked_push_alias obj=1 i=2", "try_emplace_alias obj=1 i=0"], "ipv/boundary")
@@ -443,16 +484,18 @@ class Mirror:
         return list(d)
 
 
+MV_CANDS = {"sv": ["push_mv", "emplace_back_mv", "insert_mv", "emplace_mv"], "stk": ["push_mv", "emplace_back_mv"],
+            "ipv": ["try_push_mv", "try_push_mv", "try_emplace_mv", "unchecked_push_mv", "unchecked_emplace_mv"]}
 ALIAS_CANDS = ["push_alias", "emplace_back_alias", "push_top", "emplace_top", "insert_alias", "insert_alias", "emplace_alias",
                "insert_fill_alias", "insert_fill_alias", "resize_val_alias"]
 UNARY_CANDS = {
     "sv": ["push", "push_rv", "emplace_back", "insert", "insert_rv", "emplace", "insert_fill", "insert_range", "move_insert",
            "pop", "erase", "erase_range", "resize", "resize_val", "assign_fill", "assign_range", "clear", "erase_val",
-           "erase_if", "ctor_n", "ctor_n_val", "ctor_range", "dump"] + ALIAS_CANDS,
-    "stk": ["push", "push", "push_rv", "emplace_back", "pop", "pop", "dump", "push_top", "emplace_top"],
+           "erase_if", "ctor_n", "ctor_n_val", "ctor_range", "dump"] + ALIAS_CANDS + MV_CANDS["sv"],
+    "stk": ["push", "push", "push_rv", "emplace_back", "pop", "pop", "dump", "push_top", "emplace_top"] + MV_CANDS["stk"],
     "ipv": ["try_push", "try_push", "try_push_rv", "try_emplace", "unchecked_push", "unchecked_push_rv",
             "unchecked_emplace", "pop", "pop", "clear", "try_push_alias", "try_emplace_alias", "unchecked_push_alias",
-            "unchecked_emplace_alias"],
+            "unchecked_emplace_alias"] + MV_CANDS["ipv"],
 }
 
 
@@ -522,14 +565,14 @@ def rand_history(rnd, ty, cap, kind, length, big, interleave=False):
             cands = ["push", "push_rv", "emplace_back", "insert", "insert_rv", "emplace", "insert_fill", "insert_range",
                      "move_insert", "pop", "erase", "erase_range", "resize", "resize_val", "assign_fill", "assign_range",
                      "clear", "erase_val", "erase_if", "ctor_n", "ctor_n_val", "ctor_range", "copy_ctor", "move_ctor",
-                     "copy_assign", "move_assign", "swap", "swap_free", "cmp", "cmp", "dump"] + ALIAS_CANDS
+                     "copy_assign", "move_assign", "swap", "swap_free", "cmp", "cmp", "dump"] + ALIAS_CANDS + MV_CANDS["sv"]
         elif ty == "stk":
             cands = ["push", "push", "push_rv", "emplace_back", "pop", "copy_ctor", "move_ctor", "copy_assign",
-                     "move_assign", "swap", "swap_free", "cmp", "push_top", "emplace_top"]
+                     "move_assign", "swap", "swap_free", "cmp", "push_top", "emplace_top"] + MV_CANDS["stk"]
         else:
             cands = ["try_push", "try_push", "try_push_rv", "try_emplace", "unchecked_push", "unchecked_push_rv",
                      "unchecked_emplace", "pop", "clear", "copy_ctor", "move_ctor", "try_push_alias", "try_emplace_alias",
-                     "unchecked_push_alias", "unchecked_emplace_alias"]
+                     "unchecked_push_alias", "unchecked_emplace_alias"] + MV_CANDS["ipv"]
         if interleave:
             cands = UNARY_CANDS[ty]
         op = rnd.choice(cands)
@@ -537,7 +580,7 @@ def rand_history(rnd, ty, cap, kind, length, big, interleave=False):
         o = "obj=%d" % k
         if m.unspec[k] and op not in BINARY_OPS and op not in STATE_FREE:
             continue        # the standard does not say what a moved-from object holds: no precondition can be met
-        if op in ("push", "push_rv", "emplace_back"):
+        if op in ("push", "push_rv", "emplace_back", "push_mv", "emplace_back_mv"):
             if room <= 0:
                 continue
             x = val()
@@ -576,12 +619,12 @@ def rand_history(rnd, ty, cap, kind, length, big, interleave=False):
             i = rnd.randrange(n)
             emit("resize_val_alias %s n=%d i=%d" % (o, c, i), op)
             m.o[k] = d[:c] + [d[i]] * (c - n)
-        elif op in ("try_push", "try_push_rv", "try_emplace"):
+        elif op in ("try_push", "try_push_rv", "try_emplace", "try_push_mv", "try_emplace_mv"):
             x = val()
             emit("%s %s x=%d" % (op, o, x), op + ("/full" if room <= 0 else ""))
             if room > 0:
                 d.append(x)
-        elif op in ("unchecked_push", "unchecked_push_rv", "unchecked_emplace"):
+        elif op in ("unchecked_push", "unchecked_push_rv", "unchecked_emplace", "unchecked_push_mv", "unchecked_emplace_mv"):
             if room <= 0:
                 continue
             x = val()
@@ -605,7 +648,7 @@ def rand_history(rnd, ty, cap, kind, length, big, interleave=False):
                 continue
             emit("pop %s" % o, op)
             d.pop()
-        elif op in ("insert", "insert_rv", "emplace"):
+        elif op in ("insert", "insert_rv", "emplace", "insert_mv", "emplace_mv"):
             if room <= 0:
                 continue
             p = rnd.choice([0, n, rnd.randint(0, n)])
@@ -846,6 +889,16 @@ LEVEL_TEXT = ("Proved in Lean 4 (no size bound, all capacities < 2^64, induction
               "size <= capacity and the capacity itself, and produces exactly the contents, iterator offset, "
               "count, pointer and the six comparison results that the list semantics of std::vector prescribe; "
               "try_push_back on a full inplace_vector returns null and changes nothing. "
+              "Rvalue arguments (tryPush_full_keeps_argument, tryPush_room_consumes_argument, "
+              "rvalue_argument_moved_iff_constructed, rvalue_members_generalise, rvalue_members_present): a call "
+              "f(std::move(t)) is an operation of the model language whose result includes what the caller sees of t "
+              "afterwards; the model treats the argument as a slot that a member consumes at the point where the code "
+              "constructs an element (or a local) from it; proved for all capacities (0 included), contents and element kinds: "
+              "under the documented precondition t is moved from exactly when the vector has grown by one element, and "
+              "try_push_back(T&&) / try_emplace_back on a full inplace_vector leave vector AND argument untouched "
+              "([inplace.vector.modifiers]: 'Otherwise, there are no effects'); these operations are part of step_refines / "
+              "history_refines. Whether 'moved from' is visible depends on the element type: the model maps it to the "
+              "moved-from value of the harness classes (mvd: 9999 / 9998; int and the key/payload pair show no difference). "
               "Aliasing arguments (insert_alias_eq, insertFill_alias_eq, push_alias_eq, resize_alias_eq, alias_spec, "
               "alias_members_generalise): v.insert(pos, v[i]), v.insert(pos, n, v[i]), v.emplace(pos, v[i]), v.push_back(v[i]), "
               "v.emplace_back(v[i]), v.resize(n, v[i]), stack push(top()) / emplace(top()) and inplace_vector "
@@ -898,7 +951,10 @@ LEVEL_TEXT = ("Proved in Lean 4 (no size bound, all capacities < 2^64, induction
               "vector itself as argument, plus random 40-step histories and interleaved copy/source histories at capacities up to 7, "
               "and deterministic walks plus random 10-step histories at the "
               "254/255/256 size-type boundary; the spec is validated against libstdc++ on the same histories.")
-LEVEL_NOTE = ("Trusted: Lean kernel + propext/Classical.choice/Quot.sound; fidelity of the hand model outside the explored "
+LEVEL_NOTE = ("The state of an rvalue argument is one bit in the model (moved from or not): that the element's move constructor "
+              "runs exactly once (not twice through an extra temporary) is not distinguished - emplace(pos, std::move(t)) moves "
+              "twice (into its local, then into the vector), std::vector once, both leave t moved from. "
+              "Trusted: Lean kernel + propext/Classical.choice/Quot.sound; fidelity of the hand model outside the explored "
               "histories; the extractor gen/sizetype.py and the width table CTy.bits (LP64; compared with sizeof on every run); "
               "element types modelled at the value level (object lifetime is C03's subject); g++-12 with "
               "ASan/UBSan; libstdc++ as oracle for R2 (std::vector + capacity test as stand-in for std::inplace_vector). Values "
